@@ -17,7 +17,7 @@ EXPLANATION = (
     "once on every normal path through full-forward traversals. Decides the shape, not run-time counts; user controllers are out of scope.")
 ASSUMPTIONS = ["rayon's for_each/install/join run each closure/item exactly once", "user-written BatchController::run dispatches as often as it intends"]
 TRUSTED = ["rustc nightly MIR construction (mir-opt-level=0)", "shred-facts driver", "shredlint analyses"]
-TECHNIQUE = 'static: FANOUT coverage (exactly-one call per carrier field on every CFG path, full-forward traversal classifier, run-once closures), path enumeration of insert, lock-step mutation inventory, build wiring terms, capacity constants'
+TECHNIQUE = 'static: FANOUT coverage over the structured evaluation (exactly one call per carrier field on every path; helpers, closures handed to rayon install/join/spawn and std combinators evaluated in place; loops of any spelling must be full traversals), path tabulation of insert, lock-step mutation inventory, build wiring terms, capacity constants'
 RULE_TEXT = "one obligation per (run-family method, carrier field), per path of insert, per shape-changing call site on the lock-step tables, per wiring site"
 
 
